@@ -344,6 +344,9 @@ class ProgBase(HookMixin, ContextMixin, Process):
                     raise
         elif kind == 'out_input':
             self.out(item[1], self.inputs[item[2]])
+        elif kind == 'out_input_get':
+            # a step that looks at an optional input: works for a process constructed without any inputs
+            self.out(item[1], self.inputs.get(item[2], item[3]) if item[2] not in self.inputs else self.inputs[item[2]])
         elif kind == 'ctx':
             self.ctx[item[1]] = dec(item[2])
         elif kind == 'ctxinc':
